@@ -473,7 +473,7 @@ class Tensor(object):
                     ]
                 )
 
-            other.cores[0].data *= factor
+            other.cores[0] = other.cores[0] * factor
 
         if self.batch != other.batch:
             raise ValueError("Tensors with the same batch mode are supported")
@@ -701,12 +701,16 @@ class Tensor(object):
 
         if not isinstance(other, Tensor):  # A scalar
             result = self.clone()
-            factor = np.abs(other) ** (
-                1 / self.dim()
-            )  # We scale all cores by the same factor to prevent precision issues
+            if isinstance(other, torch.Tensor):  # Keep a torch scalar attached
+                factor = torch.abs(other) ** (1 / self.dim())
+                sign = torch.sign(other)
+            else:
+                factor = np.abs(other) ** (1 / self.dim())
+                sign = np.sign(other)
+            # We scale all cores by the same factor to prevent precision issues
             for n in range(self.dim()):
                 result.cores[n] = result.cores[n] * factor
-            result.cores[0] = result.cores[0] * np.sign(other)
+            result.cores[0] = result.cores[0] * sign
             return result
 
         if self.batch != other.batch:
